@@ -280,7 +280,12 @@ int vf_open(const char *path, int flags, ...)
     intd_x = 1; Ilen = Isync = 0;
     return 4;
   }
-  V(15, is_path(path, "lock/trigger"));
+  if (!is_path(path, "lock/trigger")) {
+    /* anything else (e.g. a directory opened to be fsynced): allowed, may fail; what the
+     * program does with the result is judged by the invariants, not by this stub */
+    if (draw()) { errno = EIO; return -1; }
+    return 6;
+  }
   trig_ever = 1;
   V(5, todo_x);
   if (draw()) { errno = ENXIO; return -1; }             /* no daemon listening: not an error */
@@ -367,6 +372,7 @@ int vf_ftruncate(int fd, off_t len)
 int vf_fsync(int fd)
 {
   crash_check();
+  if (fd == 6) { if (draw()) { errno = EIO; return -1; } return 0; }   /* some other descriptor (a directory) */
   V(30, fd == 3 || fd == 4);
   if (draw()) { if (!fault_code) fault_code = 53; errno = EIO; return -1; }
   if (fd == 3) Msync = Mlen; else Isync = Ilen;
@@ -382,7 +388,7 @@ ssize_t vf_write(int fd, const void *buf, size_t n)
 }
 
 ssize_t vf_read(int fd, void *buf, size_t n) { V(32, 0); return -1; }
-int vf_close(int fd) { crash_check(); if (fd == 5) trig_open = 0; return 0; }
+int vf_close(int fd) { crash_check(); if (fd == 5) trig_open = 0; return 0; }   /* fd 6: nothing to model */
 int vf_fcntl(int fd, int cmd, ...) { return 0; }
 
 /* ---------------- end of run */
